@@ -75,8 +75,11 @@ Accept(v) ==
           /\ UNCHANGED <<acc, hs, srv, sent, queue, stale, carry>>
   /\ act' = A("Accept", 0, v, 0) /\ UNCHANGED <<ep, nextId, calls, order, deliv, had>>
 
+\* The application may declare ready before the service's accept has arrived (Ready : 278 does not look at the accepted flag): the
+\* ready message is written, the code's handshake flag is set and queued requests are released - modelled as the code is.  What must
+\* still hold: nothing the service sends reaches the handlers before a valid accept (NotifyP), and a forged accept still ends Run.
 Ready(n) ==
-  /\ Step /\ acc /\ Full
+  /\ Step /\ Full
   /\ nextId' = (IF n = 0 THEN 1 ELSE n) /\ hs' = TRUE
   /\ srv' = Flush(Append(srv, [t |-> "ready", key |-> (IF n = 0 THEN 1 ELSE n), hs |-> TRUE])) /\ sent' = FlushSent
   /\ queue' = <<>> /\ stale' = FlushStale /\ carry' = NoCarry
@@ -246,9 +249,11 @@ QuietP(s, t, e) == (e.a \in {"Call", "Respond", "RespondStale", "Timeout", "Stop
                      => (t.deliv = s.deliv /\ t.nextId = s.nextId)                                                          \* C17: nothing else reaches handlers
 CarriedP(s, t, e) == (e.a = "CallBig") => (t.srv = s.srv /\ t.calls[e.k].st = "pending")                            \* C18: nothing is written ...
 CarryGatedP(s, t, e) == (e.a \in {"Drop", "Accept"} /\ ~t.hs) => \A i \in 1..Len(t.srv) : t.srv[i].t \in Handshake   \* ... on the next connection before its handshake
+DataOf(d) == SelectSeq(d, LAMBDA x : x.kind \in {"tx", "upd"})
+UnacceptedQuietP(s, t, e) == ~s.acc => DataOf(t.deliv) = DataOf(s.deliv)      \* C18: no data reaches handlers on a connection that is not accepted
 StepProps == [][AcceptP(S, S', act') /\ NotifyP(S, S', act') /\ RespondP(S, S', act') /\ AnsweredP(S, S', act') /\ TimeoutP(S, S', act')
                 /\ ReadyP(S, S', act') /\ NotifyOtherP(S, S', act') /\ DropP(S, S', act') /\ FlushP(S, S', act') /\ WrittenP(S')
                 /\ QuietP(S, S', act') /\ SubscribeP(S, S', act') /\ BurstP(S, S', act') /\ ReadyRaceP(S, S', act')
-                /\ CarriedP(S, S', act') /\ CarryGatedP(S, S', act')]_vars
+                /\ CarriedP(S, S', act') /\ CarryGatedP(S, S', act') /\ UnacceptedQuietP(S, S', act')]_vars
 RejectProps == [][RejectSurfacesP(S, S', act')]_vars
 =============================================================================
